@@ -110,7 +110,9 @@ Inductive expr :=
 (* round 5 *)
 | EVarK (x : string) (k : vkind) (t : ty)      (* a variable of a defined type / of an array type; [t] is the underlying model type *)
 | ESel (x f : string) (k : vkind) (t : ty)     (* x.f with x a pointer-to-struct variable: panics when x is nil *)
-| EConst (x : string) (cv : value).             (* a named constant with the value go/types computed (true, false, const c = 5) *)
+| EConst (x : string) (cv : value)
+(* round 7 *)
+| EDeref (p : expr).                           (* *p, p a pointer to an array: the array (its elements), nil panics *)             (* a named constant with the value go/types computed (true, false, const c = 5) *)
 
 Definition unop_eqb (a b : unop) := match a, b with UNot, UNot | UNeg, UNeg => true | _, _ => false end.
 Definition binop_idx (o : binop) : N :=
@@ -180,6 +182,7 @@ Fixpoint expr_eqb (a b : expr) {struct a} : bool :=
   | EVarK x k t, EVarK x' k' t' => String.eqb x x' && vkind_eqb k k' && ty_eqb t t'
   | ESel x f k t, ESel x' f' k' t' => String.eqb x x' && String.eqb f f' && vkind_eqb k k' && ty_eqb t t'
   | EConst x v, EConst x' v' => String.eqb x x' && value_eqb v v'
+  | EDeref x, EDeref x' => expr_eqb x x'
   | _, _ => false
   end.
 
@@ -588,6 +591,13 @@ Definition index_apply (a i : value) : option outcome :=
   | _, _ => None
   end.
 
+Definition deref_apply (a : value) : option outcome :=
+  match a with
+  | VPArr _ None => Some RPanic
+  | VPArr _ (Some l) => Some (RVal (VInts l))
+  | _ => None
+  end.
+
 Definition slice_all_apply (a : value) : option outcome :=
   match a with
   | VStr _ | VInts _ | VBytes _ => Some (RVal a)
@@ -651,6 +661,7 @@ Fixpoint typeof (e : expr) : option ty :=
   | EVarK _ _ t => Some t
   | ESel _ _ _ t => Some t
   | EConst _ v => Some (vty v)
+  | EDeref p => match typeof p with Some TPArr => Some TInts | _ => None end
   end.
 
 Definition well_typed (e : expr) : Prop := exists t, typeof e = Some t.
@@ -726,6 +737,7 @@ Fixpoint evalS (en : env) (e : expr) (h : hist) {struct e} : R :=
   (* the field of the struct a non-nil pointer variable points to is the variable "x.f" *)
   | ESel x f _ t => if nilp en x then Some (RPanic, h) else Some (RVal (vars en (x ++ "." ++ f) t), h)
   | EConst _ v => Some (RVal v, h)
+  | EDeref p => bind (evalS en p h) (fun vp h1 => lift (deref_apply vp) h1)
   end.
 
 (* the argument-list evaluator, as a stand-alone function (equal to the inner fix above) *)
@@ -760,7 +772,7 @@ Definition prim_fun_is_type_lit (p : prim) : bool :=
 Fixpoint side_effect_free (e : expr) : bool :=
   match e with
   | EIdent _ _ | ELit _ _ _ => true
-  | EParen x | EUnary _ x | ESliceAll x => side_effect_free x
+  | EParen x | EUnary _ x | ESliceAll x | EDeref x => side_effect_free x
   | EBinary _ l r => side_effect_free l && side_effect_free r
   | EIndex a i => side_effect_free a && side_effect_free i
   | ECall (FPrim p) args =>
@@ -776,7 +788,7 @@ Fixpoint side_effect_free (e : expr) : bool :=
 Fixpoint rg_pure (e : expr) : bool :=
   match e with
   | EIdent _ _ | ELit _ _ _ => true
-  | EParen x | EUnary _ x => rg_pure x
+  | EParen x | EUnary _ x | EDeref x => rg_pure x
   | ESliceAll _ => false
   | EBinary _ l r => rg_pure l && rg_pure r
   | EIndex a i => rg_pure a && rg_pure i
